@@ -187,6 +187,92 @@ fn scenario(cfg: &RunCfg, with_cache: bool, max_reqs: u32, max_clients: u32) -> 
     }
 }
 
+/// One long-lived pipelined connection: many requests with padded heads, so that the
+/// cumulative byte count passes the connection's 8 KiB buffer several times while the
+/// server is always behind the client (reads straddle request boundaries).
+fn long_lived(cfg: &RunCfg) -> Outcome {
+    let dir = RunDir::new("c04");
+    let s = 256usize;
+    let scfg = ServerCfg { max_conns: 1, small_body_len: s, cache_dir: Some(dir.path.clone()), with_permit: false };
+    with(|w| {
+        w.net.knobs.sock_cap = *w.tape.pick(&[262_144usize, 16_384, 3000]);
+        w.net.knobs.short_io = w.tape.ratio(1, 2);
+        w.net.knobs.spurious_pending_64 = *w.tape.pick(&[0u32, 0, 4]);
+    });
+    let mut eng = match Engine::start(scfg.clone()) {
+        Ok(e) => e,
+        Err(e) => return Outcome { harness_error: Some(e), ..Default::default() },
+    };
+    eng.weights.client_step = gen::pick(&[6u32, 20, 40]);
+    eng.weights.poll = gen::pick(&[2u32, 8]);
+    let n = 12 + gen::below(50) as usize;
+    let mut reqs = Vec::new();
+    let mut total = 0usize;
+    for i in 0..n {
+        let mut r = gen_request(0, i, s, false, false);
+        // only kinds that keep the connection going
+        if !matches!(r.kind, ReqKind::NoBody | ReqKind::Known(_)) {
+            r.kind = ReqKind::NoBody;
+            r.method = "GET".into();
+        }
+        if let ReqKind::Known(k) = r.kind {
+            if k > s {
+                r.kind = ReqKind::Known(gen::below(s as u32 + 1) as usize);
+            }
+        }
+        r.expect = false;
+        r.wait100 = false;
+        r.plan.on_ready = OnReady::Respond;
+        r.plan.resp.code = gen::pick(&[200u16, 201, 204, 301]);
+        r.plan.resp.body_len = gen::below(40) as usize;
+        let pad = match gen::below(4) {
+            0 => gen::below(60),
+            1 => 100 + gen::below(400),
+            2 => 800 + gen::below(500),
+            _ => 1500 + gen::below(3000),
+        } as usize;
+        r.extra_headers.push(("x-pad".into(), "p".repeat(pad)));
+        total += r.head().len() + r.body().len();
+        reqs.push(r);
+    }
+    for r in &reqs {
+        handler::set_plan(&r.path, r.plan.clone());
+    }
+    let mut cl = client_for(&reqs, gen::ratio(5, 6), gen::pick(&[Frag::Whole, Frag::Random, Frag::Random]));
+    cl.slow_read = gen::ratio(1, 5);
+    eng.add_client(cl);
+    eng.run(&mut NoExtras);
+    if eng.hit_cap {
+        return Outcome::fail("C04.terminates", "step cap reached: the exchange never quiesces");
+    }
+    if let Some(p) = eng.sut_panics().first() {
+        return Outcome::fail("C04.no_task_panic", p.clone());
+    }
+    let cl = &eng.clients[0];
+    if !cl.done() {
+        return Outcome::fail("C04.progress", format!("client is stuck at script step {}", cl.pc));
+    }
+    let conn = cl.conn.unwrap();
+    let exp = model_conn(&reqs, &scfg);
+    let calls = handler::calls();
+    let at_eof = with(|w| w.client_at_eof(conn));
+    if let Some(mut v) = check_conn("C04", "long-lived connection", &exp, &calls, &cl.received, at_eof) {
+        v.detail = format!("{} [{} requests, {} request bytes in total]", v.detail, reqs.len(), total);
+        return Outcome { violation: Some(v), nontrivial: true, ..Default::default() };
+    }
+    if total > 8192 {
+        gen::count("probe.more_than_buffer_size_on_one_connection");
+    }
+    if total > 3 * 8192 {
+        gen::count("probe.more_than_3x_buffer_size_on_one_connection");
+    }
+    Outcome {
+        nontrivial: true,
+        sample: if cfg.index < 1 { Some(json!({"requests": reqs.len(), "request_bytes": total})) } else { None },
+        ..Default::default()
+    }
+}
+
 fn with_cache(cfg: &RunCfg) -> Outcome {
     let (r, c) = if cfg.tier == Tier::Thorough { (12, 3) } else { (8, 3) };
     scenario(cfg, true, r, c)
@@ -202,9 +288,10 @@ pub fn spec() -> PropertySpec {
         rule: "Each run: 1-3 simulated clients, each sending 1-12 generated requests (no body / small / above-threshold / undeclared length / Expect / malformed) on one connection to the real server (accept loop, token set, connection tasks, blocking-job wrapper) under a seeded scheduler that interleaves task polls, handler start/finish, client sends (whole, byte-wise, random fragments; pipelined or ping-pong) and client reads, with short socket I/O, spurious Pending and small socket buffers. Oracle: per-connection sequential reference model (handler runs, pending flags, body bytes, responses, close point). A run is non-trivial when the handler ran at least twice; distinct = distinct hash of the executed schedule (action kind + participant per step).",
         scenarios: vec![
             Scenario { name: "c04.cache", property: "C04", func: with_cache, runs_quick: 40_000, runs_thorough: 2_000_000, doc: "cache dir configured" },
+            Scenario { name: "c04.longlived", property: "C04", func: long_lived, runs_quick: 6_000, runs_thorough: 300_000, doc: "12-60 padded pipelined requests on one connection: cumulative bytes pass the 8 KiB connection buffer several times" },
             Scenario { name: "c04.nocache", property: "C04", func: no_cache, runs_quick: 8_000, runs_thorough: 300_000, doc: "no cache dir: large bodies must be refused with 500" },
         ],
-        required_probes: vec!["probe.pending_body_request", "probe.multi_request_run", "net.backpressure", "job.panicked"],
+        required_probes: vec!["probe.pending_body_request", "probe.multi_request_run", "net.backpressure", "job.panicked", "probe.more_than_3x_buffer_size_on_one_connection"],
         components: components_server(),
         assumptions: vec![
             "handlers affect the server only through their return value (blocking pool unbounded)",
